@@ -38,6 +38,12 @@ GEN2 = {
                       'steps': [('c', ['c'], ['s'], None), ('a', ['t1'], ['s'], None), ('b', ['u'], ['s'], None),
                                 ('regen', ['build.ninja'], ['gen.in'], None)],
                       'default': [], 'pools': {}},
+    # two steps are added (with the generator statement last in the text, the position the manifest's own name had
+    # in generation 1's text is a user output's in generation 2)
+    'grown2': lambda: {'order': ['build.ninja', 'c', 'd', 's', 't1', 'u', 'gen.in'],
+                       'steps': [('c', ['c'], ['s'], None), ('d', ['d'], ['s'], None), ('a', ['t1'], ['s'], None), ('b', ['u'], ['s'], None),
+                                 ('regen', ['build.ninja'], ['gen.in'], None)],
+                       'default': [], 'pools': {}},
     # both user steps move into a pool of depth 1
     'pooled': lambda: {'order': ['build.ninja', 'gen.in', 's', 't1', 'u'],
                        'steps': [('regen', ['build.ninja'], ['gen.in'], None), ('a', ['t1'], ['s'], b'p'), ('b', ['u'], ['s'], b'p')],
@@ -334,6 +340,7 @@ class Run:
         judged2 = set(e[2] for e in p2 if e[0] == 'judge')
         settled1 = set(e[2] for e in p1 if e[0] == 'judge') if len(loads) == 1 else set()
         if not (judged2 <= want) or not (want <= judged2 | settled1):
+            ex['want'] = sorted(want)
             fail('C18', 'wrong-closure', 'steps examined for the request %r under generation %d: %r (settled in the manifest phase: %r), expected %r' % (
                 self.targets, gi_final, sorted(judged2), sorted(settled1), sorted(want)))
         if judged2 & settled1:
@@ -436,18 +443,26 @@ def native_run(tree, extra, model):
                 if e[2] == 'regen' and e[1] == 1:
                     sh('touch -d @1000000500 gen.in')
                 elif e[1] == 1 or extra['g2'] != 'renamed':
-                    out = {'a': 't1', 'b': 'u', 'a2': 't2', 'hs': 'h', 'c': 'c'}.get(e[2])
+                    out = {'a': 't1', 'b': 'u', 'a2': 't2', 'hs': 'h', 'c': 'c', 'd': 'd'}.get(e[2])
                     if out:
                         sh('rm -f %s' % out)
+        if 'want' in extra:
+            # closure findings: make every user step out of date so that a skipped (or extra) step shows in what runs
+            sh('rm -f t1 t2 u c d h')
         fname = extra['filename']
         cmd = [n2] + (['-f', fname.decode()] if fname else []) + list(extra['targets'])
         r = subprocess.run(cmd, cwd=d, stdout=subprocess.PIPE, stderr=subprocess.STDOUT, text=True, timeout=60)
         ran = open(os.path.join(d, 'ran.log')).read().split() if os.path.exists(os.path.join(d, 'ran.log')) else []
         m_ran = [e[2] for e in ev if e[0] == 'start']
-        name2out = {'regen': 'regen', 'a': 't1', 'b': 'u', 'a2': 't2', 'hs': 'h', 'c': 'c'}
+        name2out = {'regen': 'regen', 'a': 't1', 'b': 'u', 'a2': 't2', 'hs': 'h', 'c': 'c', 'd': 'd'}
         res = {'ran': ran, 'rc': r.returncode, 'out': r.stdout.strip()[-160:], 'path_started': [name2out.get(x, x) for x in m_ran]}
         # the native run confirms the finding when it shows the same commands as the failing path
         res['confirms'] = sorted(ran) == sorted(res['path_started'])
+        if 'want' in extra:
+            regen_dirty = any(e[0] == 'judge' and e[2] == 'regen' and e[1] == 1 and e[3] for e in ev)
+            expected = (['regen'] if regen_dirty else []) + [name2out.get(x, x) for x in extra['want'] if x != 'regen']
+            res['expected_if_property_held'] = sorted(expected)
+            res['confirms'] = sorted(set(ran)) != sorted(set(expected))
         return res
     finally:
         shutil.rmtree(d, ignore_errors=True)
